@@ -54,6 +54,10 @@ func (p *pool) Acquire(ctx context.Context) (v wire) {
 			<-poolCtx.Done()
 			if context.Cause(poolCtx) != errAcquireComplete { // no need to broadcast if the poolCtx is cancelled explicitly.
 				verifYield(nil, "pool.Acquire.cancel", p, Completed{})
+				// Take the lock once before broadcasting: the waiter is then either still ahead of its ctx.Err() check
+				// or already inside cond.Wait(); without it the broadcast can fall between the two and be lost.
+				p.cond.L.Lock()
+				p.cond.L.Unlock()
 				p.cond.Broadcast()
 			}
 		}()
